@@ -307,3 +307,22 @@ func (c *Ctx) NoReach(rule, what string, f *ssa.Function, starts []Loc, minStart
 
 	return true
 }
+
+// ConstsByPrefix lists package-level constants whose name starts with prefix (used where the
+// enum type is an alias of int and constants cannot be found by type).
+func (p *Program) ConstsByPrefix(rel, prefix string) map[string]string {
+	out := map[string]string{}
+
+	sp := p.Pkg(rel)
+	if sp == nil {
+		return out
+	}
+
+	for _, name := range sp.Pkg.Scope().Names() {
+		if c, ok := sp.Pkg.Scope().Lookup(name).(*types.Const); ok && strings.HasPrefix(name, prefix) {
+			out[name] = c.Val().ExactString()
+		}
+	}
+
+	return out
+}
